@@ -13,6 +13,7 @@ import (
 )
 
 func init() {
+	zzsv.Register("ZZ_C19_Sandwich", ZZ_C19_Sandwich)
 	zzsv.Register("ZZ_C19_MapOrder", ZZ_C19_MapOrder)
 }
 
@@ -38,6 +39,9 @@ var zzC19Scripts = []string{
 	// literals denote the same value in every run and every call
 	"x = 1.5; x++; y = 70000; y--; return x + y;",
 	"function f() { z = 2.5; z--; z -= 0.5; return z; } return f() + f();",
+	// a run that ends in a panic inside a function leaves nothing behind that changes the next run
+	"function g(x) { if (x >= 0) { panic(\"no\"); } return x; } y = 5; return g(A) + y;",
+	"function f(x) { return x % (B - B); } y = 7; return f(A) + y;",
 	// (last: the 4-key script multiplies permutations - thorough only)
 	"h = {A: \"x\", B: \"y\", \"5\": \"z\", 2.5: \"w\"}; r = \"\"; foreach k, v in h { r = r + v; } return r;",
 }
@@ -48,6 +52,7 @@ type zzC19Run struct {
 	fcode  map[string][]byte
 	out    []object.Object
 	errs   []bool
+	errtxt []string
 	trace  []object.Object
 	stdout string
 }
@@ -84,6 +89,11 @@ func zzC19Do(sv *zzsv.T, src string, a, b int64, hostNames bool) *zzC19Run {
 		o, err := e.Execute(obj)
 		r.out = append(r.out, o)
 		r.errs = append(r.errs, err != nil)
+		if err != nil {
+			r.errtxt = append(r.errtxt, err.Error())
+		} else {
+			r.errtxt = append(r.errtxt, "")
+		}
 	}
 	r.stdout = sv.StdoutEnd()
 	return r
@@ -125,7 +135,7 @@ func zzC19Body(sv *zzsv.T) {
 	src := zzC19Scripts[k]
 	sv.Note("script", src)
 	var a, b int64
-	if k == 14 || k == 19 {
+	if k == 14 || k == 21 {
 		// integer keys of one and two digits next to string/float keys:
 		// representative pairs (symbolic keys would have to be rendered and
 		// ordered digit by digit under every permutation)
@@ -140,7 +150,7 @@ func zzC19Body(sv *zzsv.T) {
 		sv.Assume(b >= 0)
 		sv.Assume(b <= 3)
 	}
-	sv.Region("duplicate_key_in_literal", k == 5 || k == 6 || ((k == 7 || k == 14 || k == 19) && a == b))
+	sv.Region("duplicate_key_in_literal", k == 5 || k == 6 || ((k == 7 || k == 14 || k == 21) && a == b))
 	sv.Region("keys_printing_alike", k == 3 || k == 4)
 	sv.MapOrderNondet(false)
 	r1 := zzC19Do(sv, src, a, b, k == 15 || k == 16) // reference: insertion order everywhere
@@ -173,6 +183,7 @@ func zzC19Body(sv *zzsv.T) {
 	}
 	// every script here (re)assigns what it reads: the second run of the same
 	// prepared evaluator gives what the first gave
+	sv.Assert("C19.repeatable_failure", r1.errs[0] == r1.errs[1] && r1.errtxt[0] == r1.errtxt[1])
 	if !r1.errs[0] && !r1.errs[1] {
 		sv.Assert("C19.repeatable", r1.out[0].Type() == r1.out[1].Type() && r1.out[0].Inspect() == r1.out[1].Inspect())
 	}
@@ -183,4 +194,33 @@ func zzC19Body(sv *zzsv.T) {
 		}
 	}
 	sv.Assert("C19.same_output", r1.stdout == r2.stdout)
+}
+
+type zzC19Obj struct{ V int64 }
+
+// ZZ_C19_Sandwich: the same object and variables give the same result
+// before and after a run on another object that ended badly inside a
+// function (panic(), a Go run-time panic, an error, an early return from
+// nested loops): run on V=v, run on the faulting object, run on V=v again.
+func ZZ_C19_Sandwich(sv *zzsv.T) {
+	faults := []string{
+		"if (x == 77) { panic(\"no\"); }",
+		"if (x == 77) { z = x % (x - 77); }",
+		"if (x == 77) { z = nosuch(x); }",
+		"foreach a in [1, 2] { foreach b in [3, 4] { if (x == 77) { return a + b; } } }",
+	}
+	src := "function g(x) { " + faults[sv.Choice("fault", len(faults))] + " return x * 10; } function f(x) { return g(x) + 1; } y = 1; return f(V) + y;"
+	sv.Note("script", src)
+	v := sv.Int64("v")
+	sv.Assume(v != 77)
+	sv.Assume(v > -1000000 && v < 1000000)
+	e := New(src)
+	sv.Assume(e.Prepare() == nil)
+	o1, e1 := e.Execute(zzC19Obj{V: v})
+	_, e2 := e.Execute(zzC19Obj{V: 77})
+	o3, e3 := e.Execute(zzC19Obj{V: v})
+	zzDescribe(sv, "first", o1, e1)
+	sv.Observe("middle", e2 != nil)
+	sv.Assert("C19.sandwich.first", e1 == nil && zzSame(sv, o1, zInt(v*10+2)))
+	sv.Assert("C19.sandwich.same_again", (e1 != nil) == (e3 != nil) && (e1 != nil || (o1.Type() == o3.Type() && o1.Inspect() == o3.Inspect())))
 }
